@@ -113,6 +113,11 @@ Definition check_hist (tbl : list (N * N * N)) (cfg : list key) (init : obs) (st
 Section Spec.
 Variable tag : key -> N.
 
+(* the specification's own hold-down timers (RFC 5011: 30 days, 90 days), in minutes —
+   deliberately NOT the constants read from the source *)
+Definition spec_hold_add : Z := (30 * 24 * 60)%Z.
+Definition spec_hold_rem : Z := (90 * 24 * 60)%Z.
+
 Definition memN (x : N) (l : list N) : bool := existsb (N.eqb x) l.
 Definition mats (l : list key) : list N := map k_mat l.
 Definition kmap_mats (s : option kmap) : list N := match s with Some m => map (fun e => ta_mat (snd e)) m | None => [] end.
@@ -132,7 +137,14 @@ Definition trusted_pre (cfg : list key) (pre : obs) (fl : faults) : list key :=
               end in
   let dead := (match f_tread fl with TRUnreadable => [] | _ => tomb_mats (o_tomb pre) end)
               ++ (if f_sread fl then [] else marker_mats (o_state pre)) in
-  filter (fun k => is_ksk k && negb (is_rev k) && negb (memN (k_mat k) dead)) (base ++ cfg).
+  (* a configured key is merged only when the state holds nothing for it yet (an AddPend entry
+     of the same key keeps it pending) *)
+  let held := match (if f_sread fl then None else o_state pre) with
+              | Some s => kmap_mats (Some s)
+              | None => mats (o_live pre)
+              end in
+  filter (fun k => is_ksk k && negb (is_rev k) && negb (memN (k_mat k) dead))
+         (base ++ filter (fun k => negb (memN (k_mat k) held)) cfg).
 
 Definition sig_made_by (k : key) (s : sig) : bool :=
   s_ok s && (s_mat s =? k_mat k) && (s_tag s =? tag k) && is_zone k.
@@ -173,16 +185,22 @@ Definition spec_run (ss : sstate) (pre : obs) (now : Z) (fe : fetch) (fl : fault
       (is_nil (o_live post) && disk_eqb (disk_of pre) post, ss)
   | tr =>
     let unreadable_ok := match tr with TRUnreadable => is_nil (o_live post) | _ => true end in
+    (* an unreadable state or tombstone file: failing closed (empty trust set, nothing written) is always acceptable *)
+    if (f_sread fl || match tr with TRUnreadable => true | _ => false end)
+       && is_nil (o_live post) && disk_eqb (disk_of pre) post then (true, ss) else
     match fe with
     | FErr =>
         (unreadable_ok && disk_eqb (disk_of pre) post && forallb (fun k => memN (k_mat k) old_mats) (o_live post)
+         && (negb (is_nil (o_live pre)) || is_nil (o_live post))
          && forallb (fun k => negb (memN (k_mat k) (ss_rev ss))) (o_live post), ss)
     | FResp keys sigs =>
       let fa := full_auth T sigs in
       let revs := revocations T keys sigs in
       if negb fa && is_nil revs then
-        (* S1: no trusted key authenticates the response: nothing changes *)
+        (* S1: no trusted key authenticates the response: nothing changes (disk untouched, no key
+           material enters the live set, a fail-closed empty set stays empty) *)
         (unreadable_ok && disk_eqb (disk_of pre) post && forallb (fun k => memN (k_mat k) old_mats) (o_live post)
+         && (negb (is_nil (o_live pre)) || is_nil (o_live post))
          && forallb (fun k => negb (memN (k_mat k) (ss_rev ss))) (o_live post), ss)
       else
         let rev_mats := mats revs in
@@ -209,7 +227,7 @@ Definition spec_run (ss : sstate) (pre : obs) (now : Z) (fe : fetch) (fl : fault
         let fetched_mats := mats (filter (fun k => is_ksk k && negb (is_rev k)) keys) in
         let prom_now := if fa then
                           filter (fun m => match zlookup m (ss_streak ss) with
-                                           | Some t0 => (now - t0 >? hold_add)%Z
+                                           | Some t0 => (now - t0 >? spec_hold_add)%Z
                                            | None => false end) fetched_mats
                         else [] in
         let prom := prom_now ++ ss_prom ss in
@@ -218,7 +236,8 @@ Definition spec_run (ss : sstate) (pre : obs) (now : Z) (fe : fetch) (fl : fault
           if fa && state_recorded then
             map (fun m => (m, match zlookup m (ss_streak ss) with Some t0 => t0 | None => now end)) fetched_mats
           else ss_streak ss in
-        (* S7: a trusted key that merely disappears stays trusted for 90 days *)
+        (* S7: a trusted key that is still published, or that merely disappears, stays trusted
+           (90 days in the latter case); only its own valid revocation removes it *)
         let absent' :=
           if fa && state_recorded then
             map (fun k => (k_mat k, match zlookup (k_mat k) (ss_absent ss) with Some t0 => t0 | None => now end))
@@ -226,15 +245,17 @@ Definition spec_run (ss : sstate) (pre : obs) (now : Z) (fe : fetch) (fl : fault
           else ss_absent ss in
         let s_missing :=
           if fa then
-            forallb (fun k => memN (k_mat k) fetched_mats || memN (k_mat k) rev_mats
-                              || match zlookup (k_mat k) (ss_absent ss) with
-                                 | Some t0 => (now - t0 >? hold_rem - 2)%Z
-                                 | None => false end
+            forallb (fun k => memN (k_mat k) rev_mats
+                              || (negb (memN (k_mat k) fetched_mats) &&
+                                  match zlookup (k_mat k) (ss_absent ss) with
+                                  | Some t0 => (now - t0 >? spec_hold_rem - 2)%Z
+                                  | None => false end)
                               || (f_twrite fl && f_swrite fl && negb (is_nil revs))
                               || memN (k_mat k) (mats (o_live post)))
                     (filter (fun k => memN (k_mat k) (mats (o_live pre))) T)
           else true in
-        let rev_recorded := filter (fun m => memN m (recorded post)) rev_mats in
+        (* the revocation counts as persisted as soon as one of the two files was replaced in this run *)
+        let rev_recorded := if is_nil renames then [] else rev_mats in
         (unreadable_ok && s_immediate && s_perm && s_revonly && s_new && s_missing,
          mk_ss cfg (ss_record ss) streak' prom (rev_recorded ++ ss_rev ss) (ss_rev ss) rev_mats absent'
                (ss_streak ss) (ss_absent ss) renames)
@@ -250,7 +271,7 @@ Fixpoint spec_steps (ss : sstate) (cur : obs) (steps : list ostep) : bool :=
   | ORollback k cfg' post :: rest =>
       (* the restart window itself is judged by CWindow cases; here only the tracking is updated:
          a revocation accepted in the cut run counts if its record is on the composed disk *)
-      let rev := filter (fun m => memN m (recorded post)) (ss_rev_run ss) ++ ss_rev_before ss in
+      let rev := (if is_nil (firstn k (ss_renames ss)) then [] else ss_rev_run ss) ++ ss_rev_before ss in
       let landed := memN 1 (firstn k (ss_renames ss)) in
       let streak := if landed then ss_streak ss else ss_streak_before ss in
       let absent := if landed then ss_absent ss else ss_absent_before ss in
